@@ -54,11 +54,13 @@ EXHAUSTIVE = {"quick": True, "thorough": True}
 VERSIONS = [None, 0, 1, 2, 3, 10]
 NAMES = ["None", "plain", "my project", "it's", 'say "hi"', "a, b; c=d #x [s]", "  padded  ", "both ' and \"", ""]
 WS_RC = ["default", "explicit", "custom", "nested", "collide-empty", "collide-jobs", "collide-file", "missing",
-         "dot-exists"]
+         "dot-exists", "dotted", "dotdot", "prefixed"]
 WS_V2 = ["default", "absent"]
 WS_NAME = {"default": None, "explicit": "workspace", "custom": "my_ws", "nested": "data/ws",
            "collide-empty": "my_ws", "collide-jobs": "my_ws", "collide-file": "my_ws", "missing": "my_ws",
-           "dot-exists": "my_ws"}
+           "dot-exists": "my_ws",
+           # custom names that merely LOOK like the default one
+           "dotted": ".workspace", "dotdot": "..workspace", "prefixed": "workspace.old"}
 LOCK = ".SIGNAC_PROJECT_MIGRATION_LOCK"
 
 
@@ -417,7 +419,7 @@ def run_case(case, ctx):
         model.append("mig " + state0)
         impl.append(classify(err) + " " + state1)
 
-        must_succeed = rc and declared in (0, 1) and case["ws"] in ("default", "explicit", "custom", "nested")
+        must_succeed = rc and declared in (0, 1) and case["ws"] in ("default", "explicit", "custom", "nested", "dotted", "dotdot", "prefixed")
         collision = rc and declared in (0, 1) and case["ws"].startswith("collide")
         if must_succeed:
             if err is not None:
